@@ -758,6 +758,63 @@ def _thread_known_returns(b, grafted, ret_local, RET, H, EARLY):
         t[nxt_key] = first
 
 
+def devirtualize_fn_values(doc):
+    """`f(args)` where f is known to be a function item of this crate (handed down as an argument to a helper that was grafted into its caller,
+    or bound to a local): rewrite `Fn::call(f, (a, b, ..))` into the direct call `that_fn(a, b, ..)`, so that call-site queries find it."""
+    by_path = {b['path']: b for b in doc['bodies'] if b['kind'] != 'Closure'}
+    n = 0
+    for b in doc['bodies']:
+        # single-definition locals
+        defs = {}
+        for blk in b['blocks']:
+            for st in blk['stmts']:
+                if st['k'] == 'assign' and not st['place']['proj']:
+                    defs.setdefault(st['place']['local'], []).append(st['rv'])
+            t = blk['term']
+            if t['k'] == 'call' and not t['dest']['proj']:
+                defs.setdefault(t['dest']['local'], []).append(None)
+
+        def fn_item(op, depth=0):
+            if op.get('k') == 'const' and 'fn' in op:
+                return op['fn']
+            if op.get('k') in ('copy', 'move') and depth < 6:
+                pl = op['place']
+                proj = [p for p in pl['proj'] if p['k'] != 'deref']
+                if proj:
+                    return None
+                d = defs.get(pl['local'], [])
+                if len(d) == 1 and d[0] is not None:
+                    rv = d[0]
+                    if rv['k'] == 'use':
+                        return fn_item(rv['op'], depth + 1)
+                    if rv['k'] in ('ref', 'copy_for_deref') and not [p for p in rv['place']['proj'] if p['k'] != 'deref']:
+                        return fn_item({'k': 'copy', 'place': {'local': rv['place']['local'], 'proj': []}}, depth + 1)
+            return None
+        for blk in b['blocks']:
+            t = blk['term']
+            if t['k'] != 'call' or t['func'].get('def') not in ('std::ops::Fn::call', 'std::ops::FnMut::call_mut', 'std::ops::FnOnce::call_once') or len(t['args']) != 2:
+                continue
+            path = fn_item(t['args'][0])
+            if path is None or path not in by_path:
+                continue
+            tup = t['args'][1]
+            ops = None
+            if tup.get('k') in ('copy', 'move') and not tup['place']['proj']:
+                d = defs.get(tup['place']['local'], [])
+                if len(d) == 1 and d[0] is not None and d[0]['k'] == 'agg' and d[0]['agg']['k'] == 'tuple':
+                    ops = d[0]['ops']
+            if ops is None:
+                continue
+            target = by_path[path]
+            f = {'def': path, 'generic_args': [], 'name': target['name'], 'local': True}
+            if target.get('impl_self'):
+                f['impl_self'] = target['impl_self']
+            t['func'] = f
+            t['args'] = list(ops)
+            n += 1
+    return n
+
+
 def _qname_of_dict(b):
     st = b.get('impl_self')
     tr = b.get('impl_trait')
@@ -776,6 +833,7 @@ class Facts:
         self.desugared = apply_desugaring(doc)
         self.renamed = apply_renames(doc, _load_inventory())
         self.inlined = apply_inlining(doc, _load_inventory())
+        self.devirtualized = devirtualize_fn_values(doc)
         self.helper_paths = {h for _, h in self.inlined} | {c for _, c in self.desugared}
         self.adts = {a['path']: a for a in doc['adts']}
         self.param_names = _load_fingerprints().get('#params', {})
